@@ -80,7 +80,7 @@ def opclass(act, args, n=None):
     if act == "TakeSeqs":
         return act + ("/neg" if args[1] else "")
     if act == "OmitGapPos":
-        return act + ("/ml2" if args[2] == 2 else "")
+        return act + ("" if args[2] == "exact" else f"/{args[2]}") + ("/ml2" if args[3] == 2 else "")
     if act in ("NoDegenerates", "Filtered", "SampleRepl"):
         return act + ("/ml2" if args[-1 if act != "NoDegenerates" else 0] == 2 else "")
     if act == "SamplePerm":
